@@ -709,7 +709,7 @@ theorem C08_geo_detection (C : Nat) (tb fb : Rat) (preds : List (Nat × GeoClip)
       simp only [hmg]
   constructor
   · unfold soundEventDetectionGeo
-    rw [mapM_total_mem _ _ preds hwm]
+    rw [Detection.mapM_total_mem _ _ preds hwm]
     rfl
   · intro x hx
     change x ∈ Metrics.pairClips _ _ at hx
